@@ -402,6 +402,22 @@ def check_usage_history(D: S.Dict, rec: Recorder, seed: int, n: int):
                 elif op == "decoded-clear" and specs:
                     g = Avp.from_bytes(S.ref_encode(D, specs[0]))
                     g.value.clear()
+                elif op == "reassign-header-fields":
+                    # vendor id and flags are assigned other values and then the intended ones again: the encoding
+                    # must be that of the final values (V set iff the vendor id is non-zero)
+                    ref_c = S.ref_encode(D, child)
+                    for other_vendor in (99999, 0, 10415):
+                        for other_flags in (True, False):
+                            kid2, _ = L.build_lib_avp(D, child)
+                            want_m, want_p = kid2.is_mandatory, kid2.is_private
+                            kid2.vendor_id = other_vendor
+                            kid2.is_mandatory, kid2.is_private = other_flags, not other_flags
+                            kid2.vendor_id = child["vendor"]
+                            kid2.is_mandatory, kid2.is_private = want_m, want_p
+                            out2 = kid2.as_bytes()
+                            if out2 != ref_c:
+                                rec.violation("C01/usage-history/reassigned-header-fields", {"avp": child, "via_vendor": other_vendor},
+                                              f"after vendor_id := {other_vendor} := {child['vendor']} the encoding is {out2.hex()[:80]}, expected {ref_c.hex()[:80]}")
             except R.RefError:
                 continue
             except Exception as e:
@@ -413,7 +429,7 @@ def check_usage_history(D: S.Dict, rec: Recorder, seed: int, n: int):
     strat = st.sampled_from(D.grouped).flatmap(lambda e: st.tuples(
         st.just(e), S.avp_spec(D, depth=6, max_depth=6, max_octets=16),
         st.lists(S.avp_spec(D, depth=0, max_depth=3, max_octets=16, entry=e), max_size=2),
-        st.lists(st.sampled_from(["new-append", "new-extend", "decoded-empty-append", "decoded-clear"]), min_size=1, max_size=3)))
+        st.lists(st.sampled_from(["new-append", "new-extend", "decoded-empty-append", "decoded-clear", "reassign-header-fields"]), min_size=1, max_size=3)))
     hyp.run_given(strat, body, n, derive_seed(PID, "usage", seed), rec=rec)
 
 
@@ -478,7 +494,7 @@ def run(tier, scale=1.0):
     total_entries = len(D.entries)
     rec.extra["dictionary_entries"] = total_entries
     required = {f"type:{t}": 1 for t in D.by_type} | {f"len%4:{i}": 1 for i in range(4)} | {
-        "origin:registered": 1, "origin:after-usage": 1, "usage:new-append": 1, "usage:decoded-empty-append": 1, "register:after-first-decode": 1, "register:overwrite": 1, "wire:unknown": 1, "wire:vendor-shadow": 1, "time:era1": 1, "time:era0": 1,
+        "origin:registered": 1, "origin:after-usage": 1, "usage:new-append": 1, "usage:reassign-header-fields": 1, "usage:decoded-empty-append": 1, "register:after-first-decode": 1, "register:overwrite": 1, "wire:unknown": 1, "wire:vendor-shadow": 1, "time:era1": 1, "time:era0": 1,
         "time:era0-last-hour": 1, "depth:6": 1}
     return finish(rec, tier=tier, level="exploration", rule=RULE, assumptions=ASSUME, t0=t0,
                   exhaustive=False, required_classes=required,
